@@ -156,6 +156,43 @@ def check_script_result(ctx, stats, kind, text, r, canary):
         ctx.fail("a planted expression was executed during transpiling (canary file created)", case, "canary absent", "canary created", key="canary")
 
 
+WHITELIST_CALLS = {"int", "float", "str", "bool", "len", "abs", "max", "min"}
+
+
+def spine_unsupported(src):
+    """does CPython's evaluation of the expression necessarily reach a node outside the evaluator's whitelist?
+    (followed along the always-evaluated spine only: operands of unary operators, left operands, first items)"""
+    import ast
+    n = ast.parse(src, mode="eval").body
+    for _ in range(50):
+        if isinstance(n, (ast.Attribute, ast.Subscript, ast.Lambda, ast.ListComp, ast.SetComp, ast.DictComp, ast.GeneratorExp,
+                          ast.Dict, ast.Set, ast.NamedExpr, ast.Await, ast.Yield, ast.YieldFrom, ast.Starred)):
+            return True
+        if isinstance(n, ast.Call):
+            if not isinstance(n.func, ast.Name) or n.func.id not in WHITELIST_CALLS or n.keywords or not n.args:
+                return True
+            if any(isinstance(a, ast.Starred) for a in n.args):
+                return True
+            if n.func.id not in ("max", "min") and len(n.args) != 1:
+                return True
+            n = n.args[0]
+        elif isinstance(n, ast.UnaryOp):
+            n = n.operand
+        elif isinstance(n, ast.BinOp):
+            n = n.left
+        elif isinstance(n, ast.BoolOp):
+            n = n.values[0]
+        elif isinstance(n, ast.Compare):
+            n = n.left
+        elif isinstance(n, ast.IfExp):
+            n = n.test
+        elif isinstance(n, (ast.List, ast.Tuple)) and n.elts:
+            n = n.elts[0]
+        else:
+            return False
+    return False
+
+
 def depth_ok(src):
     # the guard of the generated streams: no tower, no float overflowing to infinity (F-C11-int-of-infinity)
     return src.count("(") < 40 and "1e308" not in src and "e999" not in src and "**" not in src.replace("** 0", "").replace("** 1", "").replace("** 2", "").replace("** 3", "").replace("** -1", "").replace("** 0.5", "")
@@ -191,6 +228,9 @@ def run(ctx: C.Ctx):
             ctx.fail("_eval_const executed a planted expression (canary file created)", case, "canary absent", "created", key="eval-canary")
         if r["res"][0] == "exc" and r["res"][1] not in ("ValueError", "TypeError", "ZeroDivisionError", "OverflowError"):
             ctx.fail(f"_eval_const raised {r['res'][1]}", case, "a value, ValueError, TypeError, ZeroDivisionError (OverflowError for float range)", r["res"], key="eval-exc:" + r["res"][1])
+        if r["res"][0] == "ok" and spine_unsupported(src):
+            ctx.fail("_eval_const returned a value for an expression whose evaluation necessarily reaches an unsupported node (attribute, subscript, lambda, comprehension, call outside the whitelist, keyword call ...)",
+                     case, "ValueError before anything is evaluated", r["res"], key="eval-unsupported")
         unknown = [b for b in r["builtins"] if b not in ALLOW_BUILTINS and b not in bad]
         if unknown:
             ctx.disagree("_eval_const called a builtin the model has no primitive for", case, sorted(ALLOW_BUILTINS), unknown)
